@@ -17,7 +17,67 @@ func (x *Exec) call(site ssa.Instruction, c *ssa.CallCommon, st *State) Value {
 		args = append(args, x.val(a))
 	}
 	fv := x.val(c.Value)
+	x.hintsBefore(site, c, st)
 	return x.callWith(site, c, fv, args, st)
+}
+
+// hintsBefore: the contract's intermediate assertions anchored at calls of the named callee.
+func (x *Exec) hintsBefore(site ssa.Instruction, c *ssa.CallCommon, st *State) {
+	if x.fc == nil || len(x.fc.Hints) == 0 || x.pure {
+		return
+	}
+	callee := c.StaticCallee()
+	if callee == nil {
+		return
+	}
+	short := callee.Name()
+	long := short
+	if callee.Pkg != nil {
+		long = callee.Pkg.Pkg.Name() + "." + short
+	}
+	x.hintsAt(short, long, site.Pos(), st)
+}
+
+// hintsAt: anchors are callee names ("before every call of f") or the word return ("before every
+// return").
+func (x *Exec) hintsAt(short, long string, pos token.Pos, st *State) {
+	if x.fc == nil || x.pure {
+		return
+	}
+	for i, h := range x.fc.Hints {
+		if h.Callee != short && h.Callee != long {
+			continue
+		}
+		env := x.specEnv(st, nil)
+		g, err := env.EvalBool(h.C.Expr)
+		if err != nil {
+			if short == "return" && strings.Contains(err.Error(), "unknown identifier") {
+				// a local not yet declared at this return: the cut does not apply here; one that
+				// applies at no return at all is reported as drift when the function is done
+				if x.hintSkipped == nil {
+					x.hintSkipped = map[*Hint]error{}
+				}
+				x.hintSkipped[h] = err
+				continue
+			}
+			x.invariantError(fmt.Sprintf("%s / hint[%s]", x.prefix, clauseName(h.C, i)), h.C, err)
+			continue
+		}
+		if x.hintUsed == nil {
+			x.hintUsed = map[*Hint]bool{}
+		}
+		x.hintUsed[h] = true
+		x.u.AddObl(fmt.Sprintf("%s / hint[%s] before %s", x.prefix, clauseName(h.C, i), h.Callee), "hint", h.C.Text, x.curBlockReach, g, x.pos(pos), x.prefix)
+		// the cut is visible only to obligations carrying the same property tag (the text before
+		// the first '.' of the clause name): other obligations keep the context they were proved in
+		tag := clauseName(h.C, i)
+		if j := strings.Index(tag, "."); j >= 0 {
+			tag = tag[:j]
+		}
+		flag := x.u.W.Const("hint.on."+tag, SBool)
+		x.u.hintTags[tag] = flag.S
+		x.assume(Implies(flag, g))
+	}
 }
 
 func resultValue(vals []Value) Value {
@@ -667,6 +727,38 @@ func (x *Exec) modularCall(site ssa.Instruction, fn *ssa.Function, fc *FuncContr
 		}
 		x.obl(fmt.Sprintf("%s / requires[%s]", callName, clauseName(rq, i)), "requires", rq.Text, st, g)
 	}
+	// the callee's unit-local interpretations of declared-only spec functions are premises of the
+	// postconditions that mention them. A caller that interprets the same function itself must
+	// prove that its interpretation, at the actual arguments, is the callee's (an obligation); a
+	// caller that does not gets those postconditions only under the premise.
+	var premises []Term
+	premiseOf := map[string]bool{}
+	for i, d := range fc.Defines {
+		closed, fname, _ := closedDefinition(d.Expr)
+		if closed {
+			continue // a global definition of the spec function, not an interpretation relative to the callee's parameters
+		}
+		env := &SpecEnv{u: u, x: x, pkg: pkg, vars: vars, bound: map[string]SVal{}, cur: pre, old: pre, reach: x.curBlockReach}
+		g, err := env.EvalBool(d.Expr)
+		if err != nil {
+			u.Errorf("%s: defines %q at call in %s: %v", full, d.Text, x.fn, err)
+			continue
+		}
+		callerInterprets := false
+		if x.fc != nil {
+			for _, cd := range x.fc.Defines {
+				if _, cf, _ := closedDefinition(cd.Expr); cf == fname && fname != "" {
+					callerInterprets = true
+				}
+			}
+		}
+		if callerInterprets {
+			x.obl(fmt.Sprintf("%s / defines[%s]", callName, clauseName(d, i)), "requires", "callee's interpretation holds in the caller: "+d.Text, st, g)
+		} else {
+			premises = append(premises, g)
+			premiseOf[fname] = true
+		}
+	}
 	// frame
 	callee := x.frameFromContract(fc, fn, vars, pkg, pre)
 	if x.frame != nil && !x.frame.any && !x.pure {
@@ -739,6 +831,9 @@ func (x *Exec) modularCall(site ssa.Instruction, fn *ssa.Function, fc *FuncContr
 			if err != nil {
 				u.Errorf("%s: ensures %q at call in %s: %v", full, en.Text, x.fn, err)
 				continue
+			}
+			if len(premises) > 0 && x.u.eng.specMentions(en.Expr, premiseOf, fc.Pkg) {
+				g = Implies(And(premises...), g)
 			}
 			x.assume(g)
 		}
@@ -916,9 +1011,13 @@ func sortSlice(x *Exec, site ssa.Instruction, fn *ssa.Function, args []Value, st
 	// permutation
 	k := Term{"k!q", SInt}
 	inb := func(t Term) Term { return And(Ge(t, IntLit(0)), Lt(t, n)) }
-	body := And(inb(piOf(k)), Eq(Select(nh, Elem(sl, k)), Select(h, Elem(sl, piOf(k)))), Eq(pinvOf(piOf(k)), k),
-		inb(pinvOf(k)), Eq(piOf(pinvOf(k)), k))
-	x.assume(Term{fmt.Sprintf("(forall ((k!q Int)) (! (=> %s %s) :pattern ((%s k!q)) :pattern ((%s k!q)) :pattern ((select %s %s))))", inb(k).S, body.S, pi, pinv, nh.S, Elem(sl, k).S), SBool})
+	// two directed halves, each triggered only by a read of "its" heap at the slice: stated as one
+	// axiom with the patterns (pi k) and (pinv k) the instances feed each other for ever
+	// (pinv(pinv(...k))), and every two-variable fact about the slice then blows up
+	fwd := And(inb(piOf(k)), Eq(Select(nh, Elem(sl, k)), Select(h, Elem(sl, piOf(k)))), Eq(pinvOf(piOf(k)), k))
+	x.assume(Term{fmt.Sprintf("(forall ((k!q Int)) (! (=> %s %s) :pattern ((select %s %s))))", inb(k).S, fwd.S, nh.S, Elem(sl, k).S), SBool})
+	bwd := And(inb(pinvOf(k)), Eq(Select(h, Elem(sl, k)), Select(nh, Elem(sl, pinvOf(k)))), Eq(piOf(pinvOf(k)), k))
+	x.assume(Term{fmt.Sprintf("(forall ((k!q Int)) (! (=> %s %s) :pattern ((select %s %s))))", inb(k).S, bwd.S, h.S, Elem(sl, k).S), SBool})
 	st.SetHeap(hn, nh)
 	// safety of the comparator for indices in range (it runs inside sort.Slice)
 	if !x.pure {
